@@ -189,6 +189,20 @@ def expected_copy(w: mut.World, op, s0: Snap, plan=None):
     return None
 
 
+def d71_region(w: mut.World, op):
+    """Finding D71 (unrepaired in /repo): add_child(<tree>) recognises a tree argument by `isinstance(child, type(target tree))`;
+    a source tree that is NOT an instance of the target tree's class (target = a subclass of the source's class, or a sibling
+    class) is treated as a plain data object: TypeError (unhashable) or ONE node holding the Tree object."""
+    k = op[0]
+    if k not in ("addtree", "shorttree"):
+        return False
+    ti, sti = op[1], (op[3] if k == "addtree" else op[4])
+    try:
+        return not isinstance(w.trees[sti], type(w.trees[ti]))
+    except Exception:
+        return False
+
+
 def refusal_reasons(w: mut.World, op, s0: Snap, plan=None):
     """The documented reasons for refusing the copy operation `op` in the state s0 (by pointers; [] = the copy is legal):
     a child of the target with the data_id of a source (this includes copying a node below its own parent), a deep copy
@@ -369,7 +383,7 @@ def copy_oracle(w: mut.World, step, s0: Snap, s1: Snap):
 def op_tree(op):
     """index of the existing tree an operation works on (None: it only creates a tree)"""
     k = op[0]
-    if k in ("new", "treecopy", "nodecopy", "tree_from_dict"):
+    if k in ("newsub", "new", "treecopy", "nodecopy", "tree_from_dict"):
         return None
     if k == "copyto":
         return op[3]
@@ -521,8 +535,40 @@ def execute_defaults(w: mut.World, op):
     return thunk, coq, False
 
 
+# trees of SUBCLASSES of Tree / TypedTree (the documented way to customise calc_data_id, DEFAULT_* ...).  For the model a
+# subclass that changes no behaviour IS a Tree; one that overrides calc_data_id is a tree with that id callback.
+#     ["newsub", typed, "sub" | "named"]        "sub": trivial subclass; "named": calc_data_id(self, data) = f"{data}"
+class SubTree(Tree):
+    DEFAULT_CONNECTOR_STYLE = "ascii32"
+
+
+class SubTypedTree(TypedTree):
+    DEFAULT_CONNECTOR_STYLE = "ascii32"
+
+
+class NamedTree(Tree):
+    def calc_data_id(self, data):
+        return f"{data}"
+
+
+class NamedTypedTree(TypedTree):
+    def calc_data_id(self, data):
+        return f"{data}"
+
+
+SUBCLASSES = {(False, "sub"): SubTree, (True, "sub"): SubTypedTree, (False, "named"): NamedTree, (True, "named"): NamedTypedTree}
+
+
 def execute7(w: mut.World, op):
     """like mut.execute for the ops of this module; falls back to mut.execute"""
+    if op[0] == "newsub":
+        _, typed, variant = op
+        calc = "name" if variant == "named" else None
+        coq = f"(ONewTree {H.coq_bool(typed)} {w.coq_calc(calc)})"
+        t = SUBCLASSES[(bool(typed), variant)](f"T{len(w.trees)}")
+        w.trees.append(t)
+        w.calcs.append(calc)
+        return (lambda: [len(w.trees) - 1]), coq, True
     if op[0] in ("copyto_d", "nodecopy_d"):
         return execute_defaults(w, op)
     if op[0] not in ("shortnode", "shorttree"):
@@ -604,21 +650,34 @@ def replay7(hist, *, check_from=0) -> mut.Run:
         runaway = w.allocated() - alloc0 > RUNAWAY_NODES
         # a runaway copy (D06 on the unrepaired code: hundreds of nodes until RecursionError) is rendered as a marker the
         # model can never produce, instead of a forest of hundreds of nodes per alternative (minutes of vm_compute)
-        after = [[-3]] if runaway else w.obs()
+        unrenderable = None
+        if runaway:
+            after = [[-3]]
+        else:
+            try:
+                after = w.obs()
+            except Exception as e:      # e.g. a node whose data is not a data object of the case (a Tree object ...)
+                after, unrenderable = [[-4]], f"{type(e).__name__}: {e}"
         step = dict(op=op, res=res, before=before, after=after, new_ids=list(range(alloc0 + 1, w.allocated() + 1)),
                     new_trees=list(range(ntrees0, len(w.trees))), coq=coq, plan=plan, nop=norm_op(op))
         run.obs.append([res, after])
         run.steps.append(step)
         kind = op[0] + (":" + H.ERR_NAMES.get(res[1], str(res[1])) if res[0] else "")
         run.stats[kind] = run.stats.get(kind, 0) + 1
-        if runaway:
+        if runaway or unrenderable:
             poisoned = True
-        if judged and runaway:
+        if unrenderable:
+            run.fails.append((si, "D71" if d71_region(w, norm_op(op) or op) else "copy", f"copy: after {op[0]} the trees cannot be observed - a node holds something that is not a data "
+                                          f"object of the case ({unrenderable[:80]})"))
+        elif judged and runaway:
             run.fails.append((si, "copy", f"copy: the {op[0]} allocated {len(step['new_ids'])} nodes before failing (runaway copy into the own branch)"))
         elif judged:
             s1 = Snap(w)
             msg, info = copy_oracle(w, step, s0, s1)
-            if msg:
+            if msg and d71_region(w, step.get("nop") or op) and ("was refused (EType)" in msg or "new node(s) below the target" in msg):
+                # exactly the known deviation D71, nothing else
+                run.fails.append((si, "D71", msg))
+            elif msg:
                 run.fails.append((si, "copy", msg))
             elif info:
                 if info.get("d47"):
@@ -643,21 +702,21 @@ def shrink7(hist):
     for cut in (n // 2, n - 1):
         if 0 < cut < n:
             yield dict(univ=hist["univ"], ops=ops[:cut])
-    special = any(o[0] in ("shortnode", "shorttree", "copyto_d", "nodecopy_d") for o in ops)
+    special = any(o[0] in ("shortnode", "shorttree", "copyto_d", "nodecopy_d", "newsub") for o in ops)
     if not special:
         yield from mut.shrink_candidates(dict(univ=hist["univ"], ops=ops))
         return
     r = replay7(hist)
     for i in range(n - 1, -1, -1):
         st = r.steps[i]
-        if ops[i][0] == "new" or st["new_ids"] or st.get("new_trees"):
+        if ops[i][0] in ("new", "newsub") or st["new_ids"] or st.get("new_trees"):
             continue
         yield dict(univ=hist["univ"], ops=ops[:i] + ops[i + 1:])
 
 
 def run_group7(group):
     nset = len(group["setup"])
-    setup = mut.replay({"univ": group["univ"], "ops": group["setup"]}, oracles=())
+    setup = replay7({"univ": group["univ"], "ops": group["setup"]}, check_from=len(group["setup"]))
     runs = [replay7({"univ": group["univ"], "ops": group["setup"] + [alt]}, check_from=nset) for alt in group["alts"]]
     obs = [setup.obs, [r.obs[-1] for r in runs]]
     return mut.coq_alts(setup, runs), obs, runs
@@ -917,6 +976,51 @@ def gen_versioned_groups(nmax=3, typed=(False, True)):
                     alts.append(["addtree", 2, p, 0, True, False])
                     alts.append(["copyto_d", 0, 0, 2, p, None, "omit", None])
                 yield dict(univ=SRC_UNIV, setup=setup, alts=alts, n=n_, label=f"versioned-target/{'typed' if ty else 'plain'}")
+
+
+def class_alternatives(n, typed):
+    """one call of every copy route between tree 0 (nodes 1..n) and tree 1 (x[z], y), in both directions"""
+    x, z, y = n + 1, n + 2, n + 3
+    a = [["copyto", 0, 0, 1, 0, False, None, True], ["copyto", 0, 0, 1, x, False, None, False],
+         ["copyto_d", 0, 0, 1, 0, None, "omit", None], ["copyto_d", 0, 0, 1, z, None, "omit", None],
+         ["addtree", 1, 0, 0, None, None], ["addtree", 1, 0, 0, {"n": y}, None], ["addtree", 1, x, 0, True, False],
+         ["addnode", 1, 0, 0, 1, None, None, None, True], ["addnode", 1, x, 0, min(2, n), None, None, None, None],
+         ["copyto", 0, 1, 1, 0, True, None, True], ["copyto", 0, 1, 1, y, False, None, True], ["copyto_d", 0, 1, 1, 0, None, "omit", None],
+         ["treecopy", 0], ["treecopy", 1], ["nodecopy", 0, 1, True], ["nodecopy", 0, 1, False], ["nodecopy_d", 0, 1],
+         ["shorttree", 1, x, "prepend_child", 0, None], ["shortnode", 1, y, "append_sibling", 0, 1, True],
+         ["copyto", 1, 0, 0, 1, False, None, True], ["copyto_d", 1, 0, 0, n, None, "omit", None], ["addtree", 0, 1, 1, None, None]]
+    return a
+
+
+CLASS_VARIANTS = ("base", "sub", "named")
+
+
+def gen_class_groups(shapes, typed=(False, True), include_d71=False):
+    """copies between trees of DIFFERENT classes: source / target in {Tree | TypedTree, a trivial subclass, a subclass that
+    overrides calc_data_id} - every copy route must treat a tree of a sub- or superclass as a tree"""
+    def new_op(ty, v):
+        return ["new", ty, None] if v == "base" else ["newsub", ty, v]
+    for shape in shapes:
+        for ty in typed:
+            for sv in CLASS_VARIANTS:
+                for tv in CLASS_VARIANTS:
+                    if sv == tv == "base":
+                        continue
+                    setup, n = source_setup(shape, "mixed", ty)
+                    setup = [new_op(ty, sv), new_op(ty, tv)] + setup[2:]
+                    r = replay7({"univ": SRC_UNIV, "ops": setup})
+                    if any(st["res"][0] for st in r.steps):
+                        continue
+                    alts = class_alternatives(n, ty)
+                    lab = f"classes-{sv}-to-{tv}/{'typed' if ty else 'plain'}"
+                    # add_child(<tree>) into a tree whose class the source is not an instance of: known finding D71, own cases
+                    bad = lambda a, src_v, tgt_v: a[0] in ("addtree", "shorttree") and not (tgt_v == "base" or src_v == tgt_v)  # noqa: E731
+                    reg = [a for a in alts if bad(a, sv, tv) and a[1] == 1] + [a for a in alts if bad(a, tv, sv) and a[1] == 0]
+                    yield dict(univ=SRC_UNIV, setup=setup, alts=[a for a in alts if a not in reg], n=n, label=lab)
+                    # (the runner wants the MODEL to reproduce a known finding inside its region; the class of a tree is not part of
+                    # the model, so the D71 alternatives are generated only once the fix is in /repo: include_d71=True)
+                    if reg and include_d71:
+                        yield dict(univ=SRC_UNIV, setup=setup, alts=reg, n=n, label=lab + "/D71-region")
 
 
 def _kinds(nodes, typed, c=None):
